@@ -15,6 +15,7 @@ import XotModel.Lemmas.FlocalAll3
 import XotModel.Lemmas.FhistLocal
 import XotModel.Lemmas.FparseHistLocal
 import XotModel.Lemmas.FclonePrefix8
+import XotModel.Lemmas.FclonePrefixFresh
 import XotModel.Lemmas.FcloneRoundTrip
 import XotModel.Lemmas.FcloneRepr2
 import XotModel.Model.FcloneModel
@@ -801,6 +802,84 @@ example :
       [false, true, false, false, false, false, false, false, false, false, false, false] ∧
     S.env.names = [(['s', 'p', 'a', 'c', 'e'], 1), (['i', 'd'], 1), (['r'], 0), (['a'], 2), (['a'], 0), (['b'], 0),
       (['x'], 0)] := by
+  decide +kernel
+
+end XotModel.Props
+
+/-! # ================================================================================================
+    # THE NAMESPACE NODES `clone_with_prefixes` ADDS ARE NEW (branch wt-c13small)
+    # ================================================================================================
+
+  `addSpec` (Lemmas/FclonePrefix5.lean) is the insertion loop of `clone_with_prefixes` as a function on the
+  children of the clone's root; that the nodes it inserts are NEW is visible in it (handles `next`, `next+1`, …)
+  and restated here as a property of `clone_with_prefixes` itself.  Lemmas: Lemmas/FclonePrefixFresh.lean. -/
+
+namespace XotModel.Props
+open XotModel HTree
+
+/-- ⟦C12_clone_with_prefixes_fresh⟧ `clone_with_prefixes(source)` on a live element, for EVERY iteration order
+    of the inherited prefixes.  Let `c`, root of `A ++ B`, be what `clone_node(source)` builds (`A` its namespace
+    children, `B` the rest, which does not begin with a namespace node), `f1` the forest after it.  Then:
+    * the answer is `c`, and the forest is the old trees, UNCHANGED and in place (the source's tree among them),
+      followed by ONE new tree: `c` with children `A ++ New ++ B` — the added nodes are children of the clone's
+      root only, after the namespace nodes it had and before its first non-namespace child; nothing else of the
+      clone differs from the plain clone;
+    * `New` are namespace leaves for (prefix, namespace) pairs of `order`;
+    * their handles are `f1.next, f1.next + 1, …` in order: pairwise distinct, not below the allocation counter
+      before the call (`f.next ≤ f1.next ≤ h`), hence handles of no node that existed before and of no other
+      node of the clone (those lie in `[f.next, f1.next)`); the counter ends right after them. -/
+theorem C12_clone_with_prefixes_fresh (f : Forest) (inv : f.Inv) (node : Nat) (src : HTree)
+    (hsrc : f.get? node = some src) (hel : src.value.isElement = true) (order : List (Nat × Nat)) :
+    ∃ (c : Nat) (A New B : List HTree) (f1 : Forest),
+      f.cloneNode node = (f1, some c) ∧ f1.roots = f.roots ++ [.node c src.value (A ++ B)] ∧
+      (∀ x ∈ A, x.value.category = .namespace) ∧ (∀ y, B.head? = some y → y.value.category ≠ .namespace) ∧
+      (f.cloneWithPrefixes node order).2 = some c ∧
+      (f.cloneWithPrefixes node order).1.roots = f.roots ++ [.node c src.value (A ++ New ++ B)] ∧
+      (∀ r ∈ f.roots, r ∈ (f.cloneWithPrefixes node order).1.roots) ∧
+      (∀ x ∈ New, ∃ h p ns, x = .node h (.namespace p ns) [] ∧ (p, ns) ∈ order) ∧
+      handlesList New = List.range' f1.next New.length ∧ (handlesList New).Nodup ∧
+      (f.cloneWithPrefixes node order).1.next = f1.next + New.length ∧
+      (∀ h ∈ handlesList New, f.next ≤ h ∧ f1.next ≤ h ∧ h < (f.cloneWithPrefixes node order).1.next) ∧
+      (∀ h ∈ f.allHandles, h < f.next) ∧
+      (∀ h ∈ handles (.node c src.value (A ++ B)), f.next ≤ h ∧ h < f1.next) := by
+  obtain ⟨hs, v, Ks⟩ := src
+  cases v with
+  | element name =>
+    obtain ⟨c, Kc, f1, New, h1, h2, h3, h4, h5, h6, h7, h8⟩ := cloneWithPrefixes_fresh f inv node hs name Ks hsrc order
+    have hsplit : Kc.takeWhile (fun k => k.value.category == .namespace) ++
+        Kc.dropWhile (fun k => k.value.category == .namespace) = Kc := List.takeWhile_append_dropWhile
+    have hrange := nsLeavesFrom_handles f1.next New
+    refine ⟨c, _, nsLeavesFrom f1.next New, _, f1, h1, by rw [hsplit]; exact h2, ?_, ?_, h5, h6, ?_, ?_, ?_, ?_,
+      ?_, ?_, ?_, by rw [hsplit]; exact h4⟩
+    · intro x hx; simpa using mem_takeWhile_imp _ Kc x hx
+    · intro y hy; simpa using head_dropWhile_not _ Kc y hy
+    · intro r hr; rw [h6]; exact List.mem_append_left _ hr
+    · intro x hx
+      obtain ⟨h, p, ns, rfl, _, _, hm⟩ := nsLeavesFrom_mem _ _ x hx
+      exact ⟨h, p, ns, rfl, h8 _ hm⟩
+    · rw [hrange, nsLeavesFrom_length]
+    · rw [hrange]; exact List.nodup_range'
+    · rw [h7, nsLeavesFrom_length]
+    · intro h hh
+      rw [hrange, List.mem_range'_1] at hh
+      rw [h7]; omega
+    · intro h hh; exact inv.below h hh
+  | document => simp [HTree.value, Value.isElement] at hel
+  | text s => simp [HTree.value, Value.isElement] at hel
+  | pi t d => simp [HTree.value, Value.isElement] at hel
+  | comment s => simp [HTree.value, Value.isElement] at hel
+  | «attribute» a s => simp [HTree.value, Value.isElement] at hel
+  | «namespace» a s => simp [HTree.value, Value.isElement] at hel
+
+/-- Non-vacuity (`exForest`, allocation counter 6; source = the inner element 3, whose prefix 2 is declared on
+    its parent): `clone_node` builds 7 [8, 9] and leaves the counter at 10; `clone_with_prefixes` adds the ONE
+    namespace leaf 10 in front of the attribute 8, the counter ends at 11, the document tree is untouched. -/
+example : (exForest.cloneNode 3).1.next = 10 ∧
+    (exForest.cloneWithPrefixes 3 [(2, 2)]).1.roots.map handles = [[0, 1, 2, 3, 4, 5], [7, 10, 8, 9]] ∧
+    ((exForest.cloneWithPrefixes 3 [(2, 2)]).1.get? 7).map (fun t => t.kids.map (·.value)) =
+      some [.namespace 2 2, .attribute 3 ['v'], .text ['x']] ∧
+    (exForest.cloneWithPrefixes 3 [(2, 2)]).1.next = 11 ∧
+    (exForest.cloneWithPrefixes 3 [(2, 2)]).1.roots.head? = exForest.roots.head? := by
   decide +kernel
 
 end XotModel.Props
